@@ -122,6 +122,10 @@ class Ctx:
 
 
 def run_case(mod, ctx, world):
+    if getattr(ctx, "fresh_each", False):
+        # history-dependent candidates: every execution (also every shrink attempt) starts in a new executor process
+        for fl in list(ctx.ex):
+            ctx.ex.pop(fl).close()
     plans = mod.build_plans(world)
     for k, p in enumerate(plans):
         p.setdefault("id", "p%d" % k)
@@ -401,6 +405,20 @@ def gate_candidates(mod, build, cands, seed_base, tier):
         try:
             plans, results, v = run_case(mod, ctx, c["world"])
             h = result_hash(results)
+            if c["class"] in v.classes() and h != c["hash"]:
+                # the same violation class in a fresh process, but another result: the batch executor had run other plans
+                # before this one.  Either the harness is nondeterministic, or the LIBRARY carries state from call to call
+                # (which is what the defect may be about).  Decide by executing in a second fresh process: two fresh
+                # executions must agree exactly.
+                ctx2 = Ctx(build, "h%d" % c["index"], tag="gate")
+                try:
+                    plans2, results2, v2 = run_case(mod, ctx2, c["world"])
+                    h2 = result_hash(results2)
+                finally:
+                    ctx2.close()
+                if h2 == h and c["class"] in v2.classes():
+                    c = dict(c, hash=h, history_dependent=True)
+                    ctx.fresh_each = True
             if c["class"] not in v.classes() or h != c["hash"]:
                 nondet.append({"index": c["index"], "class": c["class"], "rerun_classes": v.classes(), "hash": [c["hash"], h]})
                 continue
